@@ -16,6 +16,7 @@ mod ws_sys;
 mod export_crash;
 mod lattice;
 mod parsers;
+mod recorder;
 
 #[global_allocator]
 static GLOBAL: aquatic_verif_rt::alloc::CountingAlloc = aquatic_verif_rt::alloc::CountingAlloc;
